@@ -36,6 +36,7 @@ var commands = map[string]func([]string){
 	"quote-enum":     cmdQuoteEnum,
 	"quote-one":      cmdQuoteOne,
 	"parse-families": cmdParseFamilies,
+	"fold-groups":    cmdFoldGroups,
 }
 
 func main() {
